@@ -71,7 +71,7 @@ func judgeCallbacks(r *Res, label string, calls []hcall, sent []evrec, createdAt
 	}
 	first := -1
 	for i, s := range sent {
-		if s.RV == got[0].RV {
+		if sameEvent(got[0], s) {
 			first = i
 			break
 		}
@@ -87,7 +87,7 @@ func judgeCallbacks(r *Res, label string, calls []hcall, sent []evrec, createdAt
 			return
 		}
 		s := sent[idx]
-		if s.RV != e.RV || s.Type != e.Type || s.Key != e.Key {
+		if !sameEvent(e, s) {
 			r.V("C16", "callback-mismatch", "%s: callback %d is %s, the event at that position of the stream is %s (wrong type/object, duplicate, omission or reordering)", label, i, e, s)
 			return
 		}
